@@ -86,6 +86,7 @@ type FieldDecl struct {
 	Sort   Sort
 	AType  string // for atomic.Value: contained Go type ("string", "time.Time")
 	Mono   bool   // ghost field that only ever goes from false to true
+	Counter bool  // integer field changed by steps of one only (checked at every store): 2^63 steps away from wrapping, treated as mathematical
 	Line   int
 	Props  []string
 }
@@ -322,6 +323,8 @@ func LoadContracts(path string) (*Contracts, error) {
 					switch {
 					case t == "monotone":
 						fd.Mono = true
+					case t == "counter":
+						fd.Counter = true
 					case t == "props" && k+1 < len(fs):
 						fd.Props = strings.Split(fs[k+1], ",")
 						k++
